@@ -220,6 +220,16 @@ def check(chk):
             conv = call_attr(v)
             chk.ob("TABLE-9", "the `%s` branch converts with %s()" % (tag, tag[:-1]), conv == tag[:-1], dec.where(n.ast), construct=dec.ident,
                    text="conversion for " + tag)
+            # ... and with nothing else: the text goes through no second numeric type on its way (int(float(text)) loses every integer
+            # above 2**53 that a double cannot hold and overflows beyond 1.8e308)
+            convs = []
+            e_ = v
+            while isinstance(e_, ast.Call) and e_.args:
+                if call_attr(e_) in ("int", "float", "bool", "str", "round", "Decimal", "complex"):
+                    convs.append(call_attr(e_))
+                e_ = e_.args[0]
+            chk.ob("TABLE-9", "the `%s` branch converts the text once, directly to %s" % (tag, tag[:-1]), convs == [tag[:-1]], dec.where(n.ast),
+                   detail="conversions applied, outermost first: %s" % convs, construct=dec.ident, text="conversion chain for " + tag)
             chk.ob("LAYER-1", "the `%s` branch removes exactly the one encoding layer the encoder applied" % tag, layers == -1, dec.where(n.ast),
                    detail="net layers %d in `%s`: e.g. float:1e%%2B16 would not parse" % (layers, src(v)), construct=dec.ident,
                    text="layers %d on %s branch" % (layers, tag))
@@ -436,6 +446,7 @@ def _frame_rules(chk, cn, f, cfg):
 def battery():
     from sa.battery import M
     return [
+        M("decoded commands memoised by line", BS, "def decode_command_string(bcp_string) -> Tuple[str, dict]:", "import functools\n\n\n@functools.lru_cache(maxsize=1024)\ndef decode_command_string(bcp_string) -> Tuple[str, dict]:", "MEMO-0"),
         M("double unquote of strings", BS, "            kwargs[name] = unquote_plus(value)\n\n    return", "            kwargs[name] = unquote_plus(unquote_plus(value))\n\n    return", "LAYER-1"),
         M("numbers not unquoted", BS, "            kwargs[name] = float(unquote_plus(value[6:]))", "            kwargs[name] = float(value[6:])", "LAYER-1"),
         M("encoder leaves ':' safe", BS, "        value = quote(str(v), '')", "        value = quote(str(v), ':')", "LAYER-1"),
@@ -443,6 +454,7 @@ def battery():
         M("int before bool", BS, "        if isinstance(v, bool):  # bool isinstance of int, so this goes first\n            value = 'bool:{}'.format(value)\n        elif isinstance(v, int):\n            value = 'int:{}'.format(value)", "        if isinstance(v, int):\n            value = 'int:{}'.format(value)\n        elif isinstance(v, bool):\n            value = 'bool:{}'.format(value)", "TABLE-9"),
         M("float slice 5", BS, "float(unquote_plus(value[6:]))", "float(unquote_plus(value[5:]))", "TABLE-9"),
         M("decoder forgets None tag", BS, "        elif value == 'NoneType:':\n            kwargs[name] = None\n", "", "TABLE-9"),
+        M("int parsed through a double", BS, "            kwargs[name] = int(unquote_plus(value[4:]))", "            kwargs[name] = int(float(unquote_plus(value[4:])))", "TABLE-9"),
         M("int parsed as float", BS, "            kwargs[name] = int(unquote_plus(value[4:]))", "            kwargs[name] = float(unquote_plus(value[4:]))", "TABLE-9"),
         M("payload read in a loop of read()", BS, "                raw_bytes = await self._receiver.readexactly(bytes_needed)", "                raw_bytes = b''\n                while len(raw_bytes) < bytes_needed:\n                    raw_bytes += await self._receiver.read(bytes_needed)", "OWN-17"),
         M("payload length guessed", BS, "                rawbytes = await self._receiver.readexactly(bytes_needed)", "                rawbytes = await self._receiver.readexactly(1024)", "OWN-17"),
